@@ -7,10 +7,8 @@
     turned into bytes with zero padding (Flush(Zero)).
 
     The batch encoder produces the same bit stream by byte twiddling (tied by differential
-    execution, not re-modelled instruction by instruction) but DECIDES REJECTION
-    DIFFERENTLY: it rejects iff src[0] is NaN or the float64 SUM of src[1:] is NaN.  That
-    sum is modelled with Coq's primitive IEEE-754 binary64 floats ([float_of_bits]). *)
-From Coq Require Import Floats Uint63.
+    execution, not re-modelled instruction by instruction) and rejects iff some element is
+    NaN (first element tested up front, the others through a [sawNaN] flag). *)
 From Verif Require Import Base.Prelude Model.C07_s8b Model.C07_int.
 Local Open Scope N_scope.
 
@@ -81,28 +79,15 @@ Definition float_bytes (vs : list N) : list N :=
 Definition float_encode_scalar (vs : list N) : option (list N) :=
   if existsb is_nan vs then None else Some (float_bytes vs).
 
-(** ---- IEEE-754 binary64 from a bit pattern (primitive floats) ---- *)
-Definition float_of_bits (w : N) : float :=
-  let s := N.testbit w 63 in
-  let e := (w / 2 ^ 52) mod 2 ^ 11 in
-  let m := w mod 2 ^ 52 in
-  let mag :=
-    if e =? 2047 then (if m =? 0 then infinity else nan)
-    else if e =? 0 then Z.ldexp (of_uint63 (Uint63.of_Z (Z.of_N m))) (-1074)%Z
-    else Z.ldexp (of_uint63 (Uint63.of_Z (Z.of_N (m + 2 ^ 52)))) (Z.of_N e - 1075)%Z in
-  if s then (- mag)%float else mag.
-
-(** var sum float64; for each x in src[1:]: sum += x; math.IsNaN(sum) *)
-Definition sum_is_nan (l : list N) : bool :=
-  PrimFloat.is_nan (fold_left PrimFloat.add (map float_of_bits l) zero).
-
-(** FloatArrayEncodeAll: rejects iff src[0] is NaN or the sum of src[1:] is NaN *)
+(** FloatArrayEncodeAll: rejects iff src[0] is NaN or some later element is NaN
+    ([sawNaN = sawNaN || x != x] over src[1:], after the fix of finding float-batch-sum-nan;
+    before it the test was "the float64 sum of src[1:] is NaN") *)
 Definition float_encode_batch (vs : list N) : option (list N) :=
   match vs with
   | [] => Some (float_bytes [])
   | first :: r =>
       if is_nan first then None
-      else if sum_is_nan r then None
+      else if existsb is_nan r then None
       else Some (float_bytes vs)
   end.
 
